@@ -64,6 +64,7 @@ TRANSLATORS = [
     ('translate_vacc.py', 'VaccTables', 'vacc', 'Proofs/VaccSrc.v'),
     ('translate_str.py', 'StrTables', 'str', 'Proofs/StrSrc.v'),
     ('translate_vde.py', 'VdeTables', 'vde', 'Proofs/VdeSrc.v'),
+    ('translate_de.py', 'DeTables', 'de', 'Proofs/DeSrc.v'),
 ]
 TRANSLATORS = [t for t in TRANSLATORS if os.path.exists(os.path.join(VERIF, 'tools', t[0]))]
 
